@@ -165,6 +165,9 @@ CHECKS["C08"] = {
             {"run": "TestVfC08StorePolicy", "quick": 15000, "thorough": 500000, "shards_quick": 4, "shards_thorough": 16},
             {"run": "TestVfC08Ageing", "quick": 15000, "thorough": 500000, "shards_quick": 4, "shards_thorough": 16},
         ]},
+        {"engine": "E", "proxy": ["plain"], "tests": [
+            {"run": "TestVfC08Timed", "quick": 4, "thorough": 64, "shards_quick": 4, "shards_thorough": 8, "timeout_thorough": 3400, "shrinktime": "30s"},
+        ]},
     ],
     "assumptions": [
         "redis backend not explored (no server in the sandbox)",
@@ -320,4 +323,18 @@ CHECKS["C20"] = {
         ]},
     ],
     "assumptions": ["build tag verif enables the add-only hook in internal/pool (one call site in ReleaseBuf)"],
+}
+
+CHECKS["C19"] = {
+    "title": "Prefetch is single-flight and never delays a cache hit",
+    "level": "exploration",
+    "level_text": "Timed histories over dozens of independent names per run against the real binary: entries are primed per client group, a generated burst of concurrent hits is placed inside the refresh window, and the fake upstream holds the refresh reply until every response of the burst has been collected - so whether a hit waited for the refresh is decided by the order of events, not by a latency threshold. Checked: all hits answered from the old entry while the refresh is held, at most one refresh in flight per client group, successful refresh visible to later hits, failed/negative refresh leaves the old entry usable until its expiry and not 2 s beyond. Exploration; burst timing is sampled.",
+    "level_note": "The cache clock has one-second granularity: bursts are placed where more than 1.3 s of lifetime remain, and 'still served' is only required until 1.3 s before the nominal expiry.",
+    "technique": "property-based testing (rapid): generated timed histories against the real binary with a gating fake upstream; event-order oracle",
+    "parts": [
+        {"engine": "E", "proxy": ["plain"], "tests": [
+            {"run": "TestVfC19Prefetch", "quick": 4, "thorough": 80, "shards_quick": 4, "shards_thorough": 8, "timeout_thorough": 3400, "shrinktime": "30s"},
+        ]},
+    ],
+    "assumptions": ["client groups are selected through UDP source addresses and an ip_marker file", "a burst hit that gets no response is re-sent once on its own before it counts (UDP loss on loopback)"],
 }
